@@ -85,3 +85,25 @@ func cmdInfoModel(args []tok) string {
 	}
 	return "BADARGS"
 }
+
+func init() { commands["imdecode"] = cmdIMDecode }
+
+// imdecode <ipfix|nf9> <addr> <payload> ... : the history decoded (fresh cache each time) with the built-in model BEFORE the
+// shipped file is ever loaded, then with scripts/ipfix.elements installed and loaded by LoadExtElements, then with the
+// built-in model again:  <result> || SHIPPED <result> || AFTER <result>   (results as ipfixh / nf9h print them)
+func cmdIMDecode(args []tok) string {
+	if len(args) < 3 {
+		return "BADARGS"
+	}
+	run := cmdIpfixH
+	if args[0].s == "nf9" {
+		run = cmdNf9H
+	}
+	r0 := run(args[1:])
+	r1 := "NOT-RUN"
+	if err := withShipped(func() { r1 = run(args[1:]) }); err != nil {
+		return "ERR " + err.Error()
+	}
+	r2 := run(args[1:])
+	return r0 + " || SHIPPED " + r1 + " || AFTER " + r2
+}
